@@ -14,6 +14,9 @@ mkdir -p "$scratch/verif"; cp "$here/known_findings.txt" "$scratch/verif/"
 demodir=spine
 if [ -f "$m/meta.json" ]; then d=$(python3 -c "import json;print(json.load(open('$m/meta.json')).get('demo_dir','spine'))"); demodir=$d; fi
 if grep -qiE "copy (it )?(in)?to .?model/|into \`model/\`|package model" "$m/README.md" 2>/dev/null && ! grep -qiE "into .?spine/" "$m/README.md"; then demodir=model; fi
+# the package clause of the demonstration decides (it is what the compiler checks)
+pk=$(grep -h -m1 '^package ' "$m"/demo*_test.go 2>/dev/null | head -1 | awk '{print $2}')
+case "$pk" in model*) demodir=model;; integrationtests*|integration_tests*) demodir=integration_tests;; spine*) demodir=spine;; esac
 if [ "$verify" = verify ]; then
   cp "$m"/demo*_test.go "$scratch/repo/$demodir/" 
   ( cd "$scratch/repo" && go test -vet=off -count=1 ./$demodir/ -run 'C[0-9]+|Demo|demo' 2>&1 | tail -3 ) > "$scratch/clean.txt"
@@ -30,10 +33,11 @@ if [ "$verify" = verify ]; then
   echo "demo with mutant: $(tail -1 "$scratch/mut.txt")"
   rm -f "$scratch/repo/$demodir"/demo*_test.go
 fi
-[ -x "$here/bin/spinecheck" ] || ( cd "$here/checker" && go build -o "$here/bin/spinecheck" . )
+bin="${SPINECHECK_BIN:-$here/bin/spinecheck}"; [ -x "$bin" ] || ( cd "$here/checker" && go build -o "$here/bin/spinecheck" . )
 props="$prop"; [ "${ALL:-0}" = 1 ] && props="C01 C02 C03 C04 C05 C06 C07 C08 C09 C10 C11 C12 C13 C14 C15 C16 C17 C18 C19 C20"
+all=$("$bin" -props "$(echo $props | tr ' ' ',')" -repo "$scratch/repo" -verif "$scratch/verif" 2>&1 | grep -E "^(VIOLATION:|UNDECIDED:|environment|analysis panic)" | cut -c1-240)
 for p in $props; do
-  out=$("$here/bin/spinecheck" -prop $p -repo "$scratch/repo" -verif "$scratch/verif" 2>&1 | grep -E "^(VIOLATION:|UNDECIDED:|environment|analysis panic)" | cut -c1-240)
+  out=$(echo "$all" | grep -E "^(VIOLATION|UNDECIDED): $p |^environment|^analysis panic")
   n=$(echo -n "$out" | grep -c . )
   if [ "$n" -gt 0 ]; then echo "DETECTED by $p ($n):"; echo "$out" | head -4; else echo "not detected by $p"; fi
 done
